@@ -49,7 +49,7 @@ func init() {
 var c16Cmds = []string{"view", "view-raw", "diff", "copy", "sum", "sum-copy", "sum-diff", "generate"}
 var c16Windows = []string{"default", "past", "future", "beyond-archive0", "beyond-all", "degenerate", "inverted"}
 var c16TextOuts = []string{"none", "stdout", "file", "missing-dir", "directory", "dev-full"}
-var c16Envs = []string{"ok", "src-missing", "src-truncated", "src-other-layout", "src-other-layout-points", "sources-differ-in-points", "src-corrupt-last-archive", "dest-other-layout-points", "dest-unwritable", "generate-dest-exists"}
+var c16Envs = []string{"ok", "src-missing", "src-truncated", "src-other-layout", "src-other-layout-points", "sources-differ-in-points", "src-corrupt-last-archive", "dest-other-layout-points", "dest-unwritable", "dest-missing", "dest-corrupt-method", "generate-dest-exists"}
 
 type c16World struct {
 	root       string
@@ -142,7 +142,7 @@ func c16Eval(c *fw.Ctx, k c16Case) (sig, desc string, nontrivial bool, outcome s
 	genDest := filepath.Join(w.root, "gen", "new.wsp")
 	os.MkdirAll(filepath.Dir(genDest), 0755)
 	// environment
-	srcBroken, destBroken := false, false
+	srcBroken, destBroken, destMissing, destCorrupt := false, false, false, false
 	other := LayoutByTag("L5")
 	otherFile := &BFile{L: wsp.Layout{Archs: other.Archs, Method: 2}, Rings: EmptyRings(wsp.Layout{Archs: other.Archs})}
 	srcFiles := []string{filepath.Join(sbase, "a.wsp"), filepath.Join(sbase, "it", "x", "a.wsp"), filepath.Join(sbase, "it", "x", "b.wsp")}
@@ -187,6 +187,19 @@ func c16Eval(c *fw.Ctx, k c16Case) (sig, desc string, nontrivial bool, outcome s
 		df := &BFile{L: wsp.Layout{Archs: oa, Method: 2}, Rings: EmptyRings(wsp.Layout{Archs: oa})}
 		df.Write(filepath.Join(dbase, "a.wsp"))
 		df.Write(filepath.Join(dbase, "it", "x", "sum.wsp"))
+	case "dest-missing":
+		// the destination does not exist yet: copy and sum-copy create it (also when there turns out to be nothing to write)
+		os.Remove(filepath.Join(dbase, "a.wsp"))
+		os.Remove(filepath.Join(dbase, "it", "x", "sum.wsp"))
+		destMissing = true
+	case "dest-corrupt-method":
+		// the existing destination's aggregation method field holds a number that names no method
+		for _, f := range []string{filepath.Join(dbase, "a.wsp"), filepath.Join(dbase, "it", "x", "sum.wsp")} {
+			b, _ := os.ReadFile(f)
+			b[0], b[1], b[2], b[3] = 0, 0, 0, byte(7+k.World%2)
+			os.WriteFile(f, b, 0644)
+		}
+		destCorrupt = true
 	case "dest-unwritable":
 		dbase = filepath.Join(w.root, "plainfile", "sub")
 		genDest = filepath.Join(w.root, "plainfile", "new.wsp")
@@ -272,6 +285,13 @@ func c16Eval(c *fw.Ctx, k c16Case) (sig, desc string, nontrivial bool, outcome s
 	if pn != "" {
 		return "C16/" + k.Cmd + "/panic", ctx + ": " + firstLine(pn), true, outcome
 	}
+	if (k.Cmd == "diff" || k.Cmd == "sum-diff") && destMissing && fault == "" && k.TextOut != "missing-dir" && k.TextOut != "directory" && k.TextOut != "dev-full" {
+		// a missing destination is a reported difference, or (with a second fault in the same row) an error - never success
+		if cls == "nil" {
+			return "C16/" + k.Cmd + "/silent-success/destination-missing", ctx + ": reported success although the destination does not exist", true, outcome
+		}
+		return "", "", true, outcome
+	}
 	// rows in which the work cannot have been done
 	switch {
 	case k.TextOut == "missing-dir" || k.TextOut == "directory":
@@ -289,6 +309,8 @@ func c16Eval(c *fw.Ctx, k c16Case) (sig, desc string, nontrivial bool, outcome s
 		fault = "layout-mismatch"
 	case k.Env == "dest-other-layout-points" && (k.Cmd == "diff" || k.Cmd == "copy" || k.Cmd == "sum-copy" || k.Cmd == "sum-diff"):
 		fault = "layout-mismatch"
+	case usesDest && destCorrupt && k.Cmd != "generate":
+		fault = "destination-corrupt"
 	case usesDest && destBroken && k.Cmd != "diff" && k.Cmd != "sum-diff":
 		fault = "destination-not-creatable"
 	case k.Cmd == "generate" && k.Env == "generate-dest-exists":
@@ -309,7 +331,7 @@ func c16Eval(c *fw.Ctx, k c16Case) (sig, desc string, nontrivial bool, outcome s
 		}
 		return "", "", true, outcome
 	}
-	if (k.Cmd == "diff" || k.Cmd == "sum-diff") && destBroken {
+	if (k.Cmd == "diff" || k.Cmd == "sum-diff") && (destBroken || destMissing) {
 		// destination side missing: a reported difference
 		nontrivial = true
 		if cls == "nil" {
@@ -456,6 +478,9 @@ func runC16(c *fw.Ctx) {
 								continue
 							}
 							if cmd == "generate" && strings.HasPrefix(env, "src-") {
+								continue
+							}
+							if (env == "dest-missing" || env == "dest-corrupt-method") && cmd != "copy" && cmd != "sum-copy" && cmd != "diff" && cmd != "sum-diff" {
 								continue
 							}
 							if !c.Mine() {
